@@ -379,6 +379,37 @@ theorem C02_quiescent_after_none {δ : Type} (tc : TestCase) (drv : Driver δ) (
         · cases hg
         · split at hg <;> cases hg
 
+/-- `nextC` ends exactly where `next` ends, in the same state -/
+theorem nextC_none_iff {δ : Type} (tc : TestCase) (drv : Driver δ) (fuel : Nat) (s s' : RowIt) (d d' : δ) :
+    s.nextC tc drv fuel d = .none s' d' ↔ s.next tc drv fuel d = .none s' d' := by
+  unfold RowIt.nextC RowIt.next
+  cases getRow tc fuel s with
+  | err e => simp
+  | panic m => simp
+  | fuel => simp
+  | none s1 => simp
+  | row r s1 =>
+    simp only
+    split
+    · cases drv.rw d r.inputs with
+      | mk d1 resp =>
+        cases resp with
+        | fail e => simp
+        | ok outs =>
+          simp only
+          cases extractOutputs tc s1.outIdx s1.numOut outs (s1.ctx.setOutputs (outsOf outs)) with
+          | mk res c2 => cases res <;> simp
+    · cases drv.wo d r.inputs with
+      | mk d1 resp => cases resp <;> simp
+
+/-- **The end is final also for a caller who went on behind error items**: once `next()` has returned `None`, every
+further call returns `None` again, in the same state, without a driver call. -/
+theorem C02_quiescent_after_none_continued {δ : Type} (tc : TestCase) (drv : Driver δ) (fuel : Nat) (s s' : RowIt) (d d' : δ)
+    (h : s.nextC tc drv (fuel + 1) d = .none s' d') :
+    s'.nextC tc drv (fuel + 1) d' = .none s' d' :=
+  (nextC_none_iff tc drv (fuel + 1) s' s' d' d').mpr
+    (C02_quiescent_after_none tc drv fuel s s' d d' ((nextC_none_iff tc drv (fuel + 1) s s' d d').mp h))
+
 /-- the provided `write_input` forwards to the output-reading method and discards the answer -/
 theorem C02_default_write_input {δ : Type} (rw : δ → List InEntry → δ × DrvResp) (d : δ) (ins : List InEntry) :
     (Driver.defaultWo rw d ins).1 = (rw d ins).1 ∧
